@@ -4,10 +4,11 @@ from props import oracles as O
 
 LEVEL = "proof"
 LEVEL_TEXT = ("DecoderOK, type and label constants and span = whole expression are proved for find_concat, find_reverse, find_strreverse and the four replace "
-              "dialects (regex contract + comprehension schema); the evaluated VALUE (concatenation of the literal contents, reversal, replace-all) is "
+              "dialects (regex contract + comprehension schema); for find_reverse and find_strreverse the VALUE is proved too: it is the reversal of the literal's content "
+              "(group 1 of the pattern without its two quotes; a clause over the comprehension body's `match`); the evaluated value of concatenation and replace-all is "
               "checked by the bounded value oracle over generated literals, separators and quoting styles")
-LEVEL_NOTE = ("value exactness is bounded only: it needs the transfer of L(CONCAT_RE) through re.sub and the element-wise meaning of s[-2:0:-1], which are not "
-              "discharged; bytes.replace is the specification's own 'every occurrence' primitive")
+LEVEL_NOTE = ("value exactness of concat / replace is bounded only: it needs the transfer of L(CONCAT_RE) through re.sub, which is not discharged; bytes reversal is the uninterpreted REV shared by "
+              "code (s[-2:0:-1]) and specification; bytes.replace is the specification's own 'every occurrence' primitive")
 DESIGN_REF = "DESIGN.md 6 (C15)"
 FUNCTIONS = ["multidecoder.decoders.concat.find_concat", "multidecoder.decoders.reverse.find_reverse", "multidecoder.decoders.vba.find_strreverse",
              "multidecoder.decoders.replace.find_replace", "multidecoder.decoders.replace.find_powershell_replace",
